@@ -64,7 +64,28 @@ def histories(rng, tier):
             h += ['read r=wr f=fw%s' % ptxt]
         h += ['deg rm r=b ord=%d red=%s%s' % (ordout, red, wtxt2), 'info b', 'vals b', 'valid b', 'covmask b']
         out.append(h)
+    for _ in range(max(5, n // 10)):
+        out.append(hist_healpix(rng))
     return out
+
+
+def hist_healpix(rng):
+    """HEALPix-format inputs degrade on read exactly as after conversion"""
+    import numpy as np
+    import hpgeom as hpg
+    covord = rng.choice([0, 0, 1])
+    spord = covord + rng.choice([1, 2])
+    c = gen.MapCfg('m', 'plain', covord, spord, dtype=rng.choice(['f8', 'f4', 'i4']))
+    h = [c.line()]
+    focus = rng.sample(range(c.ncov), min(c.ncov, 3))
+    for _ in range(rng.randint(1, 3)):
+        h.append(gen.upd_line(rng, c, focus=focus))
+    o = rng.randint(covord, spord - 1)
+    red = rng.choice(['mean', 'max', 'sum', 'median'])
+    co = rng.randint(0, o)
+    h += ['hpxwrite m f=h1', 'dor r=a f=h1 ord=%d red=%s covord=%d' % (o, red, co), 'info a', 'vals a', 'valid a',
+          'hpxread r=rm f=h1 covord=%d' % co, 'deg rm r=b ord=%d red=%s' % (o, red), 'info b', 'vals b', 'valid b']
+    return h
 
 
 def nontrivial(h):
